@@ -49,6 +49,9 @@ pub struct PutToTargetPeersContext {
 impl PutToTargetPeersContext {
     /// Create new [`PutToTargetPeersContext`].
     pub fn new(query: QueryId, key: RecordKey, peers: Vec<PeerId>, quorum: Quorum) -> Self {
+        // A peer named more than once is tracked (and can succeed) only once.
+        let pending_peers: HashSet<PeerId> = peers.into_iter().collect();
+
         Self {
             query,
             key,
@@ -57,10 +60,10 @@ impl PutToTargetPeersContext {
                 // Clamp by the number of discovered peers. This should ever be relevant on
                 // small networks with fewer peers than the replication factor. Without such
                 // clamping the query would always fail in small testnets.
-                Quorum::N(n) => cmp::min(n.get(), cmp::max(peers.len(), 1)),
-                Quorum::All => cmp::max(peers.len(), 1),
+                Quorum::N(n) => cmp::min(n.get(), cmp::max(pending_peers.len(), 1)),
+                Quorum::All => cmp::max(pending_peers.len(), 1),
             },
-            pending_peers: peers.into_iter().collect(),
+            pending_peers,
             n_succeeded: 0,
         }
     }
